@@ -2,6 +2,7 @@
 import time
 import threading
 from hypothesis import strategies as st
+from ..strat import ints
 from .. import build
 from ..core import Result, viol
 
@@ -42,8 +43,8 @@ def fixed_cases(tier):
 def strategy(tier):
     return st.fixed_dictionaries({
         'kind': st.sampled_from(KINDS), 'limit_ms': st.sampled_from([40, 80, 120, 400]),
-        'delta_ms': st.one_of(st.sampled_from(DELTAS), st.integers(-20, 20), st.sampled_from([-350, -300])),
-        'exc': st.sampled_from(EXC_TYPES), 'tau_ms': st.sampled_from([5, 30, 80, 300]), 'rep': st.integers(0, 3)})
+        'delta_ms': st.one_of(st.sampled_from(DELTAS), ints(-20, 20), st.sampled_from([-350, -300])),
+        'exc': st.sampled_from(EXC_TYPES), 'tau_ms': st.sampled_from([5, 30, 80, 300]), 'rep': ints(0, 3)})
 
 
 class _State:
